@@ -71,7 +71,11 @@ func (c *vT) checkC05(q string) {
 	vAssert(vNativeTrue(bytes.Equal(b1, b2)), "C05.remarshal-same-bytes(native)")
 	vAssert(len(b1) == pbcmpl.Size(c.st.inner), "C05.size")
 	// determinism of construction: a second build from equal input, map iteration order free
-	for rep := 0; rep < vNativeReps(16); rep++ {
+	reps := vNativeReps(16)
+	if vParamDef("det", 1) == 0 {
+		reps = 0 // large sweep tries: forking over the iteration orders of eleven maps multiplies paths
+	}
+	for rep := 0; rep < reps; rep++ {
 		vMapOrderNondet(true)
 		stB, err := NewSlimTrie(c.encoder(), c.keys, c.values(), vOptCase(c.optc))
 		vMapOrderNondet(false)
@@ -108,6 +112,7 @@ func H_l2_residue() {
 	for i := 0; i < nops; i++ {
 		op := seq % 4
 		seq /= 4
+		_ = inst.String() // rendering must not leave anything behind either
 		if op == 3 {
 			inst.Reset()
 		} else {
@@ -128,5 +133,6 @@ func H_l2_residue() {
 	a.sameAnswers(inst, ref, q, "C05.residue")
 	vAssert(vDeepEqual(inst.inner, ref.inner), "C05.residue.message")
 	vAssert(vDeepEqual(inst.Stat(), ref.Stat()), "C05.residue.stat")
+	vAssert(inst.String() == ref.String(), "C19.same-after-load")
 	vReach("end")
 }
